@@ -256,7 +256,7 @@ func freshResult(callee *ssa.Function) bool {
 		return true
 	}
 	name := callee.String()
-	return strings.HasPrefix(name, "golang.org/x/exp/maps.Keys") || strings.HasPrefix(name, "slices.Clone") || strings.HasPrefix(name, "maps.Keys")
+	return strings.HasPrefix(name, "golang.org/x/exp/maps.Keys") || strings.HasPrefix(name, "slices.Clone") || strings.HasPrefix(name, "maps.Keys") || strings.HasPrefix(name, "maps.Clone")
 }
 
 func (ef *effects) get(v ssa.Value) memClass { return ef.cls[v] }
@@ -930,6 +930,7 @@ func mutatedArgs(name string, nargs int, invoke bool) []int {
 		"fmt.Errorf", "fmt.Sprintf", "fmt.Sprint", "errors.", "strings.", "strconv.", "unicode.", "unicode/utf8.", "(error).Error",
 		"golang.org/x/exp/maps.Keys", "maps.Keys", "slices.Clone", "(*strings.Builder).String", "(*strings.Builder).Len",
 		"(fmt.Stringer).String", "(interface{Unwrap() []error}).Unwrap", "min", "max",
+		"maps.Clone", "slices.Contains", "slices.Index", "slices.Equal", "slices.Max", "slices.Min", "slices.BinarySearch",
 	}
 	for _, p := range readOnlyPrefixes {
 		if strings.HasPrefix(name, p) {
@@ -941,8 +942,10 @@ func mutatedArgs(name string, nargs int, invoke bool) []int {
 		return []int{0}
 	case strings.HasPrefix(name, "fmt.Fprintf"), strings.HasPrefix(name, "fmt.Fprint"):
 		return []int{0}
-	case strings.HasPrefix(name, "slices.Sort"), strings.HasPrefix(name, "sort."):
+	case strings.HasPrefix(name, "slices.Sort"), strings.HasPrefix(name, "sort."), strings.HasPrefix(name, "slices.Reverse"):
 		return []int{0}
+	case strings.HasPrefix(name, "maps.Copy"):
+		return []int{0} // inserts every entry of the source into the destination: the result does not depend on iteration order
 	case strings.HasPrefix(name, "(*sync.Once).Do"):
 		return []int{0}
 	}
